@@ -115,7 +115,8 @@ def run(ctx):
               necessary="an error about one row of a 500-row sheet without its row number does not locate the problem")
     w2j = ctx.func("pyxform.xls2json:workbook_to_json", "C17.R2")
     loop = _row_loop(w2j)
-    sheet_level = ("There should be a choices sheet", "There should be an external_choices sheet")
+    sheet_level = ("There should be a choices sheet", "There should be an external_choices sheet",
+                   "Please ensure that the external_choices sheet has columns", "Please ensure that the choices sheet has the mandatory columns")
     # flow-sensitive: the definitions of the message that REACH the raise decide (a temporary called `msg` is reused
     # all over the loop); the finding is keyed by the literal skeleton of the message, not by how it is assembled
     lg = cfgmod.build(loop.body)
